@@ -376,7 +376,8 @@ else:
         return quote(value)
 
     PROMPT = None
-    LAST_RETURN_CODE = f"echo {cmd_escape(END_OF_COMMAND_MARKER)};echo $?"
+    # CAPTURE THE STATUS OF THE COMMAND, NOT OF THE echo THAT PRINTS THE MARKER
+    LAST_RETURN_CODE = f"__rc=$?;echo {cmd_escape(END_OF_COMMAND_MARKER)};echo $__rc"
 
     def set_prompt(stdin):
         pass
